@@ -46,17 +46,21 @@ import (
 	"net"
 	"net/netip"
 	"os"
+	"runtime"
 	"sort"
 	"strings"
 	"sync"
 	"testing"
+	"time"
 
 	"github.com/osrg/gobgp/v4/api"
 	"github.com/osrg/gobgp/v4/internal/pkg/verifgen"
 	"github.com/osrg/gobgp/v4/internal/pkg/verifkit"
 	"github.com/osrg/gobgp/v4/pkg/apiutil"
+	"github.com/osrg/gobgp/v4/pkg/config/oc"
 	"github.com/osrg/gobgp/v4/pkg/packet/bgp"
 	"google.golang.org/protobuf/proto"
+	"google.golang.org/protobuf/reflect/protoreflect"
 	"pgregory.net/rapid"
 )
 
@@ -72,6 +76,14 @@ var C18KnownIssues = map[string]bool{
 	"policy-as4-plain-number-clamped":             true,
 	"policy-list-statement-community-action-type": true,
 	"path-link-local-next-hop-dropped":            true,
+
+	"peer-field-lost/conf.send_community":                                                    true,
+	"peer-field-lost/graceful_restart.mode":                                                  true,
+	"peer-field-lost/graceful_restart.stale_routes_time":                                     true,
+	"peer-field-lost/transport.mtu_discovery":                                                true,
+	"peer-field-lost/route_reflector.route_reflector_cluster_id":                             true,
+	"peer-field-lost/timers.config.minimum_advertisement_interval":                           true,
+	"peer-field-lost/afi_safis[].route_selection_options.config.disable_best_path_selection": true,
 }
 
 var c18ServerNotes = map[string]string{
@@ -89,6 +101,14 @@ var c18ServerNotes = map[string]string{
 	"policy-list-statement-community-action-type": "actions.ext_community / actions.large_community: ListStatement (pkg/server toStatementApi) converts the option with " +
 		"api.CommunityAction_Type(oc.BgpSetCommunityOptionTypeToIntMap[...]); that map counts ADD=0, REMOVE=1, REPLACE=2 while the API enum is ADD=1, REMOVE=2, REPLACE=3: " +
 		"ADD is listed as UNSPECIFIED, REMOVE as ADD, REPLACE as REMOVE (ListPolicy uses a name switch and is right).",
+	"peer-field-lost/conf.send_community":                "api.PeerConf.send_community: newNeighborFromAPIStruct never reads it (oc.NeighborConfig.SendCommunity stays empty), NewPeerFromConfigStruct never writes it.",
+	"peer-field-lost/graceful_restart.mode":              "api.GracefulRestart.mode: not read by newNeighborFromAPIStruct, not written by NewPeerFromConfigStruct.",
+	"peer-field-lost/graceful_restart.stale_routes_time": "api.GracefulRestart.stale_routes_time: not read by newNeighborFromAPIStruct (oc.GracefulRestartConfig.StaleRoutesTime), not written by NewPeerFromConfigStruct.",
+	"peer-field-lost/transport.mtu_discovery":            "api.Transport.mtu_discovery: not read by newNeighborFromAPIStruct (oc.TransportConfig.MtuDiscovery), not written by NewPeerFromConfigStruct.",
+	"peer-field-lost/route_reflector.route_reflector_cluster_id": "api.RouteReflector.route_reflector_cluster_id: newNeighborFromAPIStruct stores it in RouteReflector.Config, " +
+		"NewPeerFromConfigStruct reports RouteReflector.State.RouteReflectorClusterId, which only a running peer fills: a configured cluster id reads back as \"invalid IP\".",
+	"peer-field-lost/timers.config.minimum_advertisement_interval":                           "api.TimersConfig.minimum_advertisement_interval: read into oc.TimersConfig.MinimumAdvertisementInterval, never written back by NewPeerFromConfigStruct.",
+	"peer-field-lost/afi_safis[].route_selection_options.config.disable_best_path_selection": "api.RouteSelectionOptionsConfig.disable_best_path_selection of an address family: dropped by the AfiSafi conversion (the other six options survive).",
 	"path-link-local-next-hop-dropped": "AddPath of an IPv6-family route whose MP_REACH_NLRI carries a global and a link-local next hop: apiutil2Path (and api2Path) rebuild MP_REACH_NLRI " +
 		"from mp.Nexthop only, the link-local address is lost (ListPath shows a 16 octet next hop).",
 }
@@ -1074,8 +1094,20 @@ func c18StatementDiff(a, b *api.Statement) []string {
 }
 
 func TestVerifC18_policy(t *testing.T) {
+	before := runtime.NumGoroutine()
 	verifkit.Run(t, "C18_policy", drawC18Policy, runC18Policy)
 	c18sSurveyReport(t)
+	c18sLeakCheck(t, before)
+}
+
+// c18sLeakCheck: every case starts and stops a BgpServer; the servers must not pile up goroutines.
+func c18sLeakCheck(t *testing.T, before int) {
+	for i := 0; i < 50 && runtime.NumGoroutine() > before+20; i++ {
+		time.Sleep(20 * time.Millisecond)
+	}
+	if n := runtime.NumGoroutine(); n > before+20 {
+		t.Errorf("VERIF-HARNESS: %d goroutines before the run, %d after: stopped servers leave goroutines behind", before, n)
+	}
 }
 
 // ---------------------------------------------------------------------------
@@ -1108,7 +1140,12 @@ func c18ConvertsLosslessly(a bgp.PathAttributeInterface) (ok bool) {
 		return false
 	}
 	b2, err := a2.Serialize()
-	return err == nil && bytes.Equal(b, b2)
+	if err != nil || !bytes.Equal(b, b2) {
+		return false
+	}
+	// the binary request form must be decodable as well (an empty COMMUNITIES, for one, is not: C04 territory)
+	l2, err := apiutil.GetNativePathAttributes(&api.Path{PattrsBinary: [][]byte{b}})
+	return err == nil && len(l2) == 1
 }
 
 func c18NLRIConvertsLosslessly(f bgp.Family, n bgp.NLRI) (ok bool) {
@@ -1130,7 +1167,11 @@ func c18NLRIConvertsLosslessly(f bgp.Family, n bgp.NLRI) (ok bool) {
 		return false
 	}
 	b2, err := n2.Serialize()
-	return err == nil && bytes.Equal(b, b2)
+	if err != nil || !bytes.Equal(b, b2) {
+		return false
+	}
+	_, err = bgp.NLRIFromSlice(f, b)
+	return err == nil
 }
 
 type c18Route struct {
@@ -1472,7 +1513,12 @@ func runC18Path(c c18sCase, st *verifkit.Stats) *verifkit.Failure {
 	nontrivial := false
 	for i := 0; i < n; i++ {
 		r := c18GenRoute(s, st, &haveMacIP)
+		// Two routes with the same RIB key replace each other.  Labels, ESI, gateway... are not part
+		// of the key of labelled / VPN / EVPN / VPLS / MUP routes, so one route per such family.
 		key := fmt.Sprintf("%s/%x", r.fam, r.nlriWire)
+		if r.fam != bgp.RF_IPv4_UC && r.fam != bgp.RF_IPv6_UC && r.fam != bgp.RF_FS_IPv4_UC {
+			key = r.fam.String()
+		}
 		if seen[key] {
 			continue
 		}
@@ -1529,8 +1575,10 @@ func drawC18Path(t *rapid.T) c18sCase {
 }
 
 func TestVerifC18_path(t *testing.T) {
+	before := runtime.NumGoroutine()
 	verifkit.Run(t, "C18_path", drawC18Path, runC18Path)
 	c18sSurveyReport(t)
+	c18sLeakCheck(t, before)
 }
 
 // ---------------------------------------------------------------------------
@@ -1630,6 +1678,38 @@ var c18ServerProbes = map[string]c18ServerProbe{
 	}},
 }
 
+// c18FullPeer is a neighbour with every configuration field set to a non-default value.
+func c18FullPeer() *api.Peer {
+	fam := &api.Family{Afi: api.Family_AFI_IP, Safi: api.Family_SAFI_UNICAST}
+	return &api.Peer{
+		Conf: &api.PeerConf{NeighborAddress: "192.0.2.1", PeerAsn: 65001, LocalAsn: 65000, AuthPassword: "pw", Description: "d", PeerGroup: "g", Type: api.PeerType_PEER_TYPE_EXTERNAL,
+			RemovePrivate: api.RemovePrivate_REMOVE_PRIVATE_ALL, RouteFlapDamping: true, SendCommunity: 3, NeighborInterface: "eth0", Vrf: "v", AllowOwnAsn: 2, ReplacePeerAsn: true,
+			AdminDown: true, SendSoftwareVersion: true, AllowAspathLoopLocal: true},
+		Timers:          &api.Timers{Config: &api.TimersConfig{ConnectRetry: 10, HoldTime: 90, KeepaliveInterval: 30, MinimumAdvertisementInterval: 5, IdleHoldTimeAfterReset: 7}},
+		RouteReflector:  &api.RouteReflector{RouteReflectorClient: true, RouteReflectorClusterId: "10.0.0.1"},
+		RouteServer:     &api.RouteServer{RouteServerClient: true, SecondaryRoute: true},
+		GracefulRestart: &api.GracefulRestart{Enabled: true, RestartTime: 120, HelperOnly: true, DeferralTime: 30, NotificationEnabled: true, LonglivedEnabled: true, StaleRoutesTime: 60, Mode: "helper-only"},
+		Transport:       &api.Transport{LocalAddress: "192.0.2.254", LocalPort: 1179, MtuDiscovery: true, PassiveMode: true, RemotePort: 179, TcpMss: 1400, BindInterface: "eth1", IpTos: 192},
+		EbgpMultihop:    &api.EbgpMultihop{Enabled: true, MultihopTtl: 3},
+		TtlSecurity:     &api.TtlSecurity{Enabled: true, TtlMin: 254},
+		Bfd:             &api.BfdPeerConfig{Enabled: true, Port: 3784, DesiredMinimumTxInterval: 300000, RequiredMinimumReceive: 300000, DetectionMultiplier: 3},
+		AfiSafis: []*api.AfiSafi{{Config: &api.AfiSafiConfig{Family: fam, Enabled: true},
+			RouteSelectionOptions: &api.RouteSelectionOptions{Config: &api.RouteSelectionOptionsConfig{AlwaysCompareMed: true, IgnoreAsPathLength: true, ExternalCompareRouterId: true,
+				AdvertiseInactiveRoutes: true, EnableAigp: true, IgnoreNextHopIgpMetric: true, DisableBestPathSelection: true}}}},
+	}
+}
+
+func init() {
+	for k := range C18KnownIssues {
+		if !strings.HasPrefix(k, "peer-field-lost/") {
+			continue
+		}
+		c18ServerProbes[k] = c18ServerProbe{"C18_peer", func() ([]c18sFail, *verifkit.Failure) {
+			return c18CheckPeer(c18FullPeer(), verifkit.Scratch("C18_peer"))
+		}}
+	}
+}
+
 // c18RunServerProbe returns the failure of the probe that the shape key explains (nil: the issue does not reproduce).
 func c18RunServerProbe(key string) (f *verifkit.Failure, other []string) {
 	fails, hard := c18ServerProbes[key].run()
@@ -1725,6 +1805,252 @@ func FuzzVerifC18_path(f *testing.F) {
 	f.Fuzz(func(t *testing.T, data []byte) {
 		if fail := runC18Path(c18sFuzzCase(data), verifkit.Scratch("C18_path")); fail != nil {
 			t.Fatalf("VERIF-FAIL C18_path sig=%q: %s", fail.Sig, fail.Msg)
+		}
+	})
+}
+
+// ---------------------------------------------------------------------------
+// C18_peer — neighbour configuration: api.Peer -> oc.Neighbor -> api.Peer
+// ---------------------------------------------------------------------------
+//
+// The gRPC layer turns the api.Peer of AddPeer/UpdatePeer into the native oc.Neighbor with
+// newNeighborFromAPIStruct and reports neighbours with oc.NewPeerFromConfigStruct.  The oracle:
+// every configuration field the generator sets (a value the native field can hold) must come
+// back with the same value; fields the generator leaves unset and the state sections are not
+// compared.
+
+func c18GenFamilyMsg(s *verifgen.Src) *api.Family {
+	f := verifgen.Pick(s, verifgen.AllFamilies)
+	return &api.Family{Afi: api.Family_Afi(f.Afi()), Safi: api.Family_Safi(f.Safi())}
+}
+
+func c18GenApplyPolicy(s *verifgen.Src) *api.ApplyPolicy {
+	gen := func(dir api.PolicyDirection) *api.PolicyAssignment {
+		if s.Chance(1, 4) {
+			return nil
+		}
+		a := &api.PolicyAssignment{Direction: dir, DefaultAction: api.RouteAction(s.Intn(3))}
+		for i, n := 0, s.Len(3); i < n; i++ {
+			a.Policies = append(a.Policies, &api.Policy{Name: fmt.Sprintf("pol%d", s.Intn(9))})
+		}
+		return a
+	}
+	return &api.ApplyPolicy{ImportPolicy: gen(api.PolicyDirection_POLICY_DIRECTION_IMPORT), ExportPolicy: gen(api.PolicyDirection_POLICY_DIRECTION_EXPORT)}
+}
+
+func c18GenPeer(s *verifgen.Src, label func(string)) *api.Peer {
+	addr := func() string {
+		if s.Chance(1, 3) {
+			return s.V6().String()
+		}
+		return s.V4().String()
+	}
+	name := func(p string) string { return fmt.Sprintf("%s%d", p, s.Intn(100)) }
+	p := &api.Peer{}
+	p.Conf = &api.PeerConf{
+		NeighborAddress: addr(), PeerAsn: verifgen.ASN(s), LocalAsn: verifgen.ASN(s), AuthPassword: name("pw"), Description: name("peer "),
+		PeerGroup: name("grp"), Type: api.PeerType(s.Intn(3)), RemovePrivate: api.RemovePrivate(s.Intn(3)), RouteFlapDamping: s.Bool(), SendCommunity: uint32(s.Intn(4)),
+		NeighborInterface: name("eth"), Vrf: name("vrf"), AllowOwnAsn: uint32(s.Intn(256)), ReplacePeerAsn: s.Bool(), AdminDown: s.Bool(),
+		SendSoftwareVersion: s.Bool(), AllowAspathLoopLocal: s.Bool(),
+	}
+	if s.Chance(3, 4) {
+		p.Timers = &api.Timers{Config: &api.TimersConfig{ConnectRetry: uint64(s.U16()), HoldTime: uint64(s.U16()), KeepaliveInterval: uint64(s.U16()),
+			MinimumAdvertisementInterval: uint64(s.U16()), IdleHoldTimeAfterReset: uint64(s.U16())}}
+		label("peer/timers")
+	}
+	if s.Chance(1, 2) {
+		p.RouteReflector = &api.RouteReflector{RouteReflectorClient: s.Bool(), RouteReflectorClusterId: s.V4().String()}
+		label("peer/route-reflector")
+	}
+	if s.Chance(1, 2) {
+		p.RouteServer = &api.RouteServer{RouteServerClient: s.Bool(), SecondaryRoute: s.Bool()}
+		label("peer/route-server")
+	}
+	if s.Chance(1, 2) {
+		p.GracefulRestart = &api.GracefulRestart{Enabled: s.Bool(), RestartTime: uint32(s.Intn(4096)), HelperOnly: s.Bool(), DeferralTime: uint32(s.U16()),
+			NotificationEnabled: s.Bool(), LonglivedEnabled: s.Bool(), StaleRoutesTime: uint32(s.U16()), Mode: verifgen.Pick(s, []string{"", "helper-only"})}
+		label("peer/graceful-restart")
+	}
+	if s.Chance(1, 2) {
+		p.Transport = &api.Transport{LocalAddress: addr(), LocalPort: uint32(s.U16()), MtuDiscovery: s.Bool(), PassiveMode: s.Bool(), RemotePort: uint32(s.U16()),
+			TcpMss: uint32(s.U16()), BindInterface: name("eth"), IpTos: uint32(s.Intn(256))}
+		label("peer/transport")
+	}
+	if s.Chance(1, 2) {
+		p.EbgpMultihop = &api.EbgpMultihop{Enabled: s.Bool(), MultihopTtl: uint32(s.Intn(256))}
+		label("peer/ebgp-multihop")
+	}
+	if s.Chance(1, 2) {
+		p.TtlSecurity = &api.TtlSecurity{Enabled: s.Bool(), TtlMin: uint32(s.Intn(256))}
+		label("peer/ttl-security")
+	}
+	if s.Chance(1, 2) {
+		p.Bfd = &api.BfdPeerConfig{Enabled: s.Bool(), Port: uint32(s.U16()), DesiredMinimumTxInterval: s.U32(), RequiredMinimumReceive: s.U32(), DetectionMultiplier: uint32(s.Intn(256))}
+		label("peer/bfd")
+	}
+	if s.Chance(1, 2) {
+		p.ApplyPolicy = c18GenApplyPolicy(s)
+		label("peer/apply-policy")
+	}
+	seen := map[string]bool{}
+	for i, n := 0, s.Len(3); i < n; i++ {
+		fam := c18GenFamilyMsg(s)
+		if seen[fam.String()] {
+			continue
+		}
+		seen[fam.String()] = true
+		af := &api.AfiSafi{Config: &api.AfiSafiConfig{Family: fam, Enabled: s.Bool()}}
+		if s.Bool() {
+			af.MpGracefulRestart = &api.MpGracefulRestart{Config: &api.MpGracefulRestartConfig{Enabled: s.Bool()}}
+		}
+		if s.Bool() {
+			af.ApplyPolicy = c18GenApplyPolicy(s)
+		}
+		if s.Bool() {
+			af.RouteSelectionOptions = &api.RouteSelectionOptions{Config: &api.RouteSelectionOptionsConfig{AlwaysCompareMed: s.Bool(), IgnoreAsPathLength: s.Bool(),
+				ExternalCompareRouterId: s.Bool(), AdvertiseInactiveRoutes: s.Bool(), EnableAigp: s.Bool(), IgnoreNextHopIgpMetric: s.Bool(), DisableBestPathSelection: s.Bool()}}
+		}
+		if s.Bool() {
+			af.UseMultiplePaths = &api.UseMultiplePaths{Config: &api.UseMultiplePathsConfig{Enabled: s.Bool()},
+				Ebgp: &api.Ebgp{Config: &api.EbgpConfig{AllowMultipleAsn: s.Bool(), MaximumPaths: s.U32()}}, Ibgp: &api.Ibgp{Config: &api.IbgpConfig{MaximumPaths: s.U32()}}}
+		}
+		if s.Bool() {
+			af.PrefixLimits = &api.PrefixLimit{Family: fam, MaxPrefixes: 1 + s.U32()%4294967295, ShutdownThresholdPct: uint32(s.Intn(101))} // 0 = no limit = absent
+		}
+		if s.Bool() {
+			af.RouteTargetMembership = &api.RouteTargetMembership{Config: &api.RouteTargetMembershipConfig{DeferralTime: uint32(s.U16())}}
+		}
+		if s.Bool() {
+			af.LongLivedGracefulRestart = &api.LongLivedGracefulRestart{Config: &api.LongLivedGracefulRestartConfig{Enabled: s.Bool(), RestartTime: uint32(s.Intn(1 << 24))}}
+		}
+		if s.Bool() {
+			af.AddPaths = &api.AddPaths{Config: &api.AddPathsConfig{Receive: s.Bool(), SendMax: uint32(s.Intn(256))}}
+		}
+		p.AfiSafis = append(p.AfiSafis, af)
+	}
+	label(fmt.Sprintf("peer/afi-safis/%d", len(p.AfiSafis)))
+	return p
+}
+
+// c18ProtoLost lists the paths of the fields that are set in a and have another value in b.
+func c18ProtoLost(prefix string, a, b protoreflect.Message) (out []string) {
+	a.Range(func(fd protoreflect.FieldDescriptor, v protoreflect.Value) bool {
+		path := prefix + string(fd.Name())
+		switch {
+		case fd.IsList():
+			la, lb := v.List(), b.Get(fd).List()
+			if la.Len() != lb.Len() {
+				out = append(out, fmt.Sprintf("%s(len %d -> %d)", path, la.Len(), lb.Len()))
+				return true
+			}
+			for i := 0; i < la.Len(); i++ {
+				if fd.Message() != nil {
+					out = append(out, c18ProtoLost(path+"[]."+"", la.Get(i).Message(), lb.Get(i).Message())...)
+				} else if !la.Get(i).Equal(lb.Get(i)) {
+					out = append(out, path+"[]")
+				}
+			}
+		case fd.Message() != nil:
+			if !b.Has(fd) {
+				out = append(out, path+"(absent)")
+				return true
+			}
+			out = append(out, c18ProtoLost(path+".", v.Message(), b.Get(fd).Message())...)
+		default:
+			if !v.Equal(b.Get(fd)) {
+				out = append(out, path)
+			}
+		}
+		return true
+	})
+	sort.Strings(out)
+	return out
+}
+
+// c18PeerNormalise applies the documented defaults to the expected message.
+func c18PeerNormalise(p *api.Peer) {
+	if p.Conf != nil && p.Conf.Type == api.PeerType_PEER_TYPE_UNSPECIFIED {
+		p.Conf.Type = api.PeerType_PEER_TYPE_INTERNAL // PeerTypeFromApi: anything but EXTERNAL is internal
+	}
+}
+
+func c18PeerShape(path string) string {
+	// indices of repeated fields are already elided ("afi_safis[].")
+	return "peer-field-lost/" + path
+}
+
+func runC18Peer(c c18sCase, st *verifkit.Stats) *verifkit.Failure {
+	s := verifgen.NewSrc(c.Recipe)
+	in := c18GenPeer(s, func(l string) { st.Label(l) })
+	fails, hard := c18CheckPeer(in, st)
+	if hard != nil {
+		return hard
+	}
+	if len(in.AfiSafis) > 0 || in.ApplyPolicy != nil || in.Transport != nil {
+		st.Nontrivial()
+	}
+	return c18sSettle(st, fails)
+}
+
+func c18CheckPeer(in *api.Peer, st *verifkit.Stats) (fails []c18sFail, hard *verifkit.Failure) {
+	want := proto.Clone(in).(*api.Peer)
+	c18PeerNormalise(want)
+	var n *oc.Neighbor
+	var out *api.Peer
+	var err error
+	func() {
+		defer func() {
+			if r := recover(); r != nil {
+				hard = verifkit.Failf("panic-peer", "converting %v panicked: %v", in, r)
+			}
+		}()
+		n, err = newNeighborFromAPIStruct(proto.Clone(in).(*api.Peer))
+		if err == nil {
+			out = oc.NewPeerFromConfigStruct(n)
+		}
+	}()
+	if hard != nil {
+		return nil, hard
+	}
+	if err != nil {
+		return nil, verifkit.Failf("peer-rejected", "newNeighborFromAPIStruct refuses %v: %v", in, err)
+	}
+	if out == nil {
+		return nil, verifkit.Failf("peer-nil", "NewPeerFromConfigStruct returns nil for %v", in)
+	}
+	st.SubEval(1)
+	lost := c18ProtoLost("", want.ProtoReflect(), out.ProtoReflect())
+	seen := map[string]bool{}
+	for _, path := range lost {
+		key := path
+		if i := strings.IndexByte(key, '('); i >= 0 {
+			key = key[:i]
+		}
+		if seen[key] {
+			continue
+		}
+		seen[key] = true
+		var shapes []string
+		if _, ok := C18KnownIssues[c18PeerShape(key)]; ok {
+			shapes = []string{c18PeerShape(key)}
+		}
+		fails = append(fails, c18sFail{class: key, shapes: shapes,
+			f: verifkit.Failf("peer-field-lost", "api.Peer field %s does not survive api -> oc.Neighbor -> api:\n sent   %v\n listed %v", path, in, out)})
+	}
+	return fails, nil
+}
+
+func TestVerifC18_peer(t *testing.T) {
+	verifkit.Run(t, "C18_peer", drawC18s, runC18Peer)
+	c18sSurveyReport(t)
+}
+
+func FuzzVerifC18_peer(f *testing.F) {
+	f.Add([]byte{})
+	f.Add(bytes.Repeat([]byte{9, 9, 9, 9, 1, 0, 0, 0, 7, 7, 7, 7, 3, 0, 0, 0, 2, 0, 0, 0, 5, 5, 5, 5, 0xff, 0xff, 0xff, 0xff}, 8))
+	f.Fuzz(func(t *testing.T, data []byte) {
+		if fail := runC18Peer(c18sFuzzCase(data), verifkit.Scratch("C18_peer")); fail != nil {
+			t.Fatalf("VERIF-FAIL C18_peer sig=%q: %s", fail.Sig, fail.Msg)
 		}
 	})
 }
